@@ -18,6 +18,7 @@ type InstCfg struct {
 	HashMode string    `json:"hash_mode"`
 	CollideN int       `json:"collide_n,omitempty"`
 	MinLen   int       `json:"min_len"`
+	MinCap   int       `json:"min_cap_floor,omitempty"`
 	Presize  int       `json:"presize"`
 	UsePre   bool      `json:"use_presized"`
 	Ctor     CacheCtor `json:"ctor"`
@@ -108,6 +109,10 @@ func RunSeq(sc *SeqScenario) *SeqResult {
 			res.Probes["knob_unavailable"]++
 		}
 		in.w = &World{sim: sim}
+		if cfg.MinCap > 0 {
+			bridge.SetMinCapacity(cfg.MinCap)
+			defer bridge.SetMinCapacity(96)
+		}
 		if cacheFam {
 			var cb func(int, int64)
 			if sc.CBKind > 0 && cfg.Ctor.CB && cfg.Ctor.Ctor != "plain" {
